@@ -26,6 +26,7 @@ type Facts struct {
 	Dispatch        [][2]string          `json:"dispatch"` // command, parse expression
 	DispatchDefault string               `json:"dispatchDefault"`
 	Server          map[string]string    `json:"server"`
+	Funcs           map[string]string    `json:"funcs"` // "pkg.Recv.method" / "pkg.func" / "pkg.type.T" / "pkg.decl.x"
 }
 
 // guarded runs one extraction group; a panic becomes an "unknown:" fact.
@@ -40,12 +41,13 @@ func guarded(out *Facts, name string, f func()) {
 
 func extractAll(repo string) *Facts {
 	out := &Facts{Sql: map[string]Stmt{}, Facts: map[string]TxFact{}, Wrappers: map[string]Wrap{},
-		Consts: map[string]string{}, Schema: map[string]SchemaObj{}, Server: map[string]string{},
+		Consts: map[string]string{}, Schema: map[string]SchemaObj{}, Server: map[string]string{}, Funcs: map[string]string{},
 		Aliases: [][3]string{}, Replaces: [][5]string{}, Dispatch: [][2]string{}, SchemaOrder: []string{}}
 	guarded(out, "consts", func() { extractConsts(out, repo) })
 	for _, p := range repoPkgs {
 		guarded(out, p, func() { extractPkg(out, filepath.Join(repo, "internal", p)) })
 	}
+	guarded(out, "funcs", func() { extractFuncs(out, repo) })
 	guarded(out, "schema", func() { extractSchema(out, filepath.Join(repo, "internal/sqlx/schema.sql")) })
 	sort.Slice(out.Aliases, func(i, j int) bool {
 		return strings.Join(out.Aliases[i][:], ".") < strings.Join(out.Aliases[j][:], ".")
